@@ -108,3 +108,12 @@ Theorem C08_int_enum_nested_inhabited :
     map (fun kv => Valid.valid (fun _ _ => true) [] (fuelV 1 0) ex_ie_outer (JObj kv)) ex_ie_nested_docs = [true; false; true; false; true].
 Proof. exact int_enum_nested_inhabited. Qed.
 Print Assumptions C08_int_enum_nested_inhabited.
+
+(* number enums are leaves of C02_nested_objects_exact as well: {"type": "number", "enum": [0.5, 1, 2.25]} *)
+Theorem C08_num_enum_inhabited :
+  exists t b, Gen.gen (fun s => s) (mkCfg false false) [] (fuelG 0 2) MDeclared None false ex_ne_obj [82]%N = Done (t, b) /\
+    (forall kv, In kv ex_ne_docs ->
+       is_ok (Exec.dec (fun _ _ => true) [] (fuelD 0 0) t (JObj kv)) = Valid.valid (fun _ _ => true) [] (fuelV 0 0) ex_ne_obj (JObj kv)) /\
+    map (fun kv => Valid.valid (fun _ _ => true) [] (fuelV 0 0) ex_ne_obj (JObj kv)) ex_ne_docs = [true; true; false; false; false].
+Proof. exact num_enum_inhabited. Qed.
+Print Assumptions C08_num_enum_inhabited.
